@@ -117,13 +117,24 @@ def correspondence(ctx):
         if " ".join(r.split()[:3]) != ww or "hintsBeyond=1" in r:
             ctx.violation("after an abandoned frame and a reset, a valid frame fed by following the decoder's requests: %s (expected %s)" % (r[:120], ww), dict(kind="monitor", op=ln[:400000], result=r[:300]))
             break
-    return dict(evaluations=ev, distinct_nontrivial=len({l[:150] + str(len(l)) for l in lines}),
+    # deterministic model of ZSTD_decompressStream (Model/DStream.lean; theorems dstream_progress / dstream_no_livelock / dstream_calls_bounded):
+    # per-call consumed / produced / exact return value (= the input hint) against the real code, hinted feeding included
+    import ent_dstream
+    nb_ = len(ctx.violations)
+    dsr = ent_dstream.run(ctx)
+    for v_ in ctx.violations[nb_:]:
+        v_["replay"] = dict(v_.get("replay") or {}, ent="dstream")
+
+    return dict(dstream_model_tie=dsr, evaluations=ev, distinct_nontrivial=len({l[:150] + str(len(l)) for l in lines}),
                 rule="compression call histories (single-threaded and 1-3 workers; a profile with one slow worker and job-sized pushes followed by flush) with every completed flush checked by the prefix decoder; "
                      "hint-following decoding of compositions with skippable frames at several output chunk sizes; distinct = distinct call lines",
                 samples=[dict(op=" ".join(lines[0].split()[:2]) + " ... " + " ".join(lines[0].split()[3:]), result=out[0][-80:])], flush_points_checked=nflush, hint_runs=len(hl))
 
 
 def replay(ctx, data):
+    if data.get("ent") == "dstream":
+        import ent_dstream
+        return ent_dstream.replay(ctx, data)
     exe = frames.harness()
     rc, out, err = frames.run_lines(exe, [data["op"]])
     return dict(violates=True, note="re-executed", result=[o[-300:] for o in out])
